@@ -49,20 +49,35 @@ type Keys struct {
 	Genesis  int64
 	Seed     []byte
 	BeaconID string
+	// Indices[i] is the share index of member i (default i); groups left by a DKG in which a participant
+	// did not qualify have holes.
+	Indices []int
 }
 
 // NewKeys draws a random polynomial of threshold t and n key pairs for the scheme.
 func NewKeys(schemeID string, n, t int, period time.Duration, genesis int64) *Keys {
+	idx := make([]int, n)
+	for i := range idx {
+		idx[i] = i
+	}
+	return NewKeysIdx(schemeID, idx, t, period, genesis)
+}
+
+// NewKeysIdx is NewKeys for a group whose members hold the given share indices.
+func NewKeysIdx(schemeID string, indices []int, t int, period time.Duration, genesis int64) *Keys {
+	n := len(indices)
 	sch, err := crypto.SchemeFromName(schemeID)
 	if err != nil {
 		panic(err)
 	}
 	sch.ThresholdScheme = &memoTS{inner: sch.ThresholdScheme}
-	k := &Keys{SchemeID: schemeID, Scheme: sch, N: n, T: t, Period: period, Catchup: time.Second, Genesis: genesis, BeaconID: "default"}
+	k := &Keys{SchemeID: schemeID, Scheme: sch, N: n, T: t, Period: period, Catchup: time.Second, Genesis: genesis, BeaconID: "default", Indices: indices}
 	k.Poly = share.NewPriPoly(sch.KeyGroup, t, nil, random.New())
 	k.Pub = k.Poly.Commit(sch.KeyGroup.Point().Base())
 	_, k.Commits = k.Pub.Info()
-	k.Shares = k.Poly.Shares(n)
+	for _, ix := range indices {
+		k.Shares = append(k.Shares, k.Poly.Eval(ix))
+	}
 	for i := 0; i < n; i++ {
 		kp, err := key.NewKeyPair(fmt.Sprintf("192.0.2.%d:8000", i+1), sch)
 		if err != nil {
@@ -85,6 +100,9 @@ func (k *Keys) Reshare(n2, t2 int, keep []int) *Keys {
 	_, nk.Commits = nk.Pub.Info()
 	nk.Shares = nk.Poly.Shares(n2)
 	for i := 0; i < n2; i++ {
+		nk.Indices = append(nk.Indices, i)
+	}
+	for i := 0; i < n2; i++ {
 		if keep[i] >= 0 {
 			nk.Pairs = append(nk.Pairs, k.Pairs[keep[i]])
 			continue
@@ -103,7 +121,7 @@ func (k *Keys) Group() *key.Group {
 	g := &key.Group{Threshold: k.T, Period: k.Period, Scheme: k.Scheme, ID: k.BeaconID, CatchupPeriod: k.Catchup,
 		GenesisTime: k.Genesis, GenesisSeed: k.Seed, PublicKey: &key.DistPublic{Coefficients: k.Commits}}
 	for i, p := range k.Pairs {
-		g.Nodes = append(g.Nodes, &key.Node{Identity: p.Public, Index: uint32(i)})
+		g.Nodes = append(g.Nodes, &key.Node{Identity: p.Public, Index: uint32(k.Indices[i])})
 	}
 	return g
 }
@@ -156,10 +174,29 @@ func (k *Keys) RefVerifyPartial(round uint64, prev, sig []byte) (int, error) {
 	if err != nil {
 		return -1, err
 	}
-	if idx < 0 || idx >= k.N {
+	if !k.IsMemberIndex(idx) {
 		return idx, fmt.Errorf("index %d is not a member", idx)
 	}
 	return idx, ts.VerifyPartial(k.Pub, RefDigest(k.SchemeID, round, prev), sig)
+}
+
+func (k *Keys) IsMemberIndex(idx int) bool {
+	for _, ix := range k.Indices {
+		if ix == idx {
+			return true
+		}
+	}
+	return false
+}
+
+// SignAtIndex makes a partial that lies on the group's polynomial at an arbitrary share index (what a
+// coalition of t members can compute for an index nobody holds).
+func (k *Keys) SignAtIndex(idx int, round uint64, prev []byte) []byte {
+	s, err := k.Scheme.ThresholdScheme.Sign(k.Poly.Eval(idx), RefDigest(k.SchemeID, round, prev))
+	if err != nil {
+		panic(err)
+	}
+	return s
 }
 
 // SignPartial makes member i's partial for (round, prev) with the repository-independent digest.
@@ -407,7 +444,7 @@ func (n *Net) AddNodePrefilled(ctx context.Context, k *Keys, i int, backend stri
 }
 
 func (n *Net) startHandler(ctx context.Context, nd *Node, k *Keys, i int) error {
-	conf := &beacon.Config{Public: &key.Node{Identity: k.Pairs[i].Public, Index: uint32(i)}, Share: k.Share(i), Group: k.Group(), Clock: nd.Clock}
+	conf := &beacon.Config{Public: &key.Node{Identity: k.Pairs[i].Public, Index: uint32(k.Indices[i])}, Share: k.Share(i), Group: k.Group(), Clock: nd.Clock}
 	h, err := beacon.NewHandler(ctx, nd.Client, nd.Mon, conf, fix.Logger(), common.Version{Major: 2})
 	if err != nil {
 		return err
